@@ -9,6 +9,7 @@ import (
 	"encoding/json"
 	"fmt"
 	"os"
+	"runtime/debug"
 	"sort"
 )
 
@@ -79,6 +80,9 @@ func (r *Result) drift(s string) {
 }
 
 func main() {
+	// A goroutine stack of 256 MB is far beyond anything a legitimate build needs; an unbounded recursion in the code
+	// under test then dies in a fraction of a second instead of filling the default 1 GB first (the verdict is the same).
+	debug.SetMaxStack(256 << 20)
 	if len(os.Args) < 2 {
 		names := make([]string, 0, len(subcmds))
 		for k := range subcmds {
